@@ -67,6 +67,8 @@ class Module:
             if self.locals_propagated:
                 normalise.flatten_else(self.tree)
                 normalise.merge_nested_ifs(self.tree)
+                # definitions may have regained their pinned form: match the remaining locals once more
+                self.locals_recovered += localnames.recover(self)
         for node in ast.walk(self.tree):
             for child in ast.iter_child_nodes(node):
                 child._parent = node
